@@ -10,6 +10,9 @@ EXTENDS CollectorMC, Json
 SimEnvGate     == RandomElement(1..(IF pc = "select" THEN 4 ELSE 25)) = 1
 SimFailGate    == RandomElement(1..25) = 1
 SimTimeoutGate == nenv = MaxEnv \/ RandomElement(1..6) = 1
+\* directed generation (cfg: EnvNext <- WatchEnvNext, no VIEW: every history counts): the configuration
+\* watch is the only thing that talks to the collector, so that nothing else can end the run
+WatchEnvNext == ExtChange("ok") \/ ExtChange("err") \/ ExtSignal("sighup")
 BrokenNow == {x[1] : x \in {y \in { <<"StateOrder", StateOrder(o)>>, <<"EndsClosed", EndsClosed(o)>>,
                                         <<"ServiceShutdownOnce", ServiceShutdownOnce(o)>>,
                                         <<"ProvidersShutdownOnce", ProvidersShutdownOnce(o)>>,
